@@ -66,7 +66,14 @@ def cubic(e, x, y):
 def the_lambda(e, kind, s=None, **known):
     """the chip's own lambda vector of the group of `kind` wired to the given vectors (None if there is none)"""
     hits = ffecc.locate(e, kind, s=s, **{k: tuple(v) for k, v in known.items()})
-    return list(hits[0][1]["L"]) if hits else None
+    if not hits:
+        # without the group there is no lambda to name: the specification cannot be stated ("false" below makes
+        # the obligation fail; it is then reported as INCONCLUSIVE with this reason, never as a violation)
+        ob = getattr(e, "fecc_ob", None)
+        if ob is not None and getattr(e, "fecc_chain_ok", False):
+            ob._no_lambda = f"no {kind} gate group wired to the exposed operand limbs was found (the chip's lambda cannot be located)"
+        return None
+    return list(hits[0][1]["L"])
 
 
 def chord(e, Pt, Qt, Rt, guards=None):
@@ -102,7 +109,20 @@ def cut(e, parts, pre=()):
     """the specification is the conjunction of `parts` [(label, Bool)]; each part (and before them the
     auxiliary facts `pre`) the solver proves from the hypotheses is asserted as a lemma, so the main query
     of the operation only has to combine them (ffecc.prove_cuts)."""
-    ffecc.prove_cuts(e, [x for x in list(pre) + list(parts) if x[1] is not None], timeout=CUT_TIMEOUT[0])
+    e.__dict__.setdefault("_cut_log", []).append([lbl for lbl, _ in parts])
+    missing = ffecc.prove_cuts(e, [x for x in list(pre) + list(parts) if x[1] is not None], timeout=CUT_TIMEOUT[0])
+    ob = getattr(e, "fecc_ob", None)
+    for lbl, f in parts:
+        if lbl in missing and ob is not None and hasattr(e, "s") and not getattr(ob, "_forged", None) \
+                and getattr(e, "fecc_chain_ok", False) and not getattr(ob, "_no_lambda", None):
+            # a part of the specification is not implied: look for a forged assignment (honest run with the
+            # outputs concerned and their neighbourhood left to the solver), replayed on the real MockProver
+            try:
+                ob._forged = ffecc.search_forged(e, f, lbl)
+            except Exception as ex:   # the search is best effort; decide() still runs its own
+                ob._forged = None
+                if ffecc.os.environ.get("FECC_DEBUG"):
+                    print("   fecc forged-assignment search failed:", repr(ex))
     return AND(*[f for _, f in parts])
 
 
@@ -168,6 +188,25 @@ def S_add(e, I, O):
     return cut(e, parts, pre)
 
 
+def S_incomplete_add(e, I, O):
+    """private helper (hook H11): condition bit fixed to 1, so the chord identities hold unconditionally; the
+    result carries p's identity flag (the caller guarantees p, q, r are not the identity and p != +-q)"""
+    Pt, Qt = pts(e, I)
+    Rt, = pts(e, O)
+    gs = []
+    body = chord(e, Pt, Qt, Rt, gs)
+    return cut(e, [("flags+wf", AND(isbit(Rt[2]), eq(Rt[2], Pt[2]), wf(e, Rt[0]), wf(e, Rt[1]))),
+                   ("chord-law", body)],
+               pre=[("gates-enabled", enabled(gs))])
+
+
+def S_assert_different_x(e, I, O):
+    """private helper (hook H11), soundness: an accepted pair of well-formed x coordinates represents different
+    residues (the helper is documented as sound but incomplete)"""
+    Pt, Qt = pts(e, I)
+    return ne(res(e, Pt[0]), res(e, Qt[0]))
+
+
 def S_negate(e, I, O):
     Pt, = pts(e, I)
     Rt, = pts(e, O)
@@ -222,7 +261,39 @@ def S_pi(e, I, O):
     return AND(isbit(Pt[2]), wf(e, ox), wf(e, oy), eq(res(e, ox), res(e, Pt[0])), eq(res(e, oy), res(e, Pt[1])))
 
 
+def with_cut(spec):
+    """the whole specification as one lemma cut (tried on slices of the hypotheses before the full query).
+    Also asks the solver whether the HONEST run itself (accepted by the real MockProver) violates the
+    specification: cengine.decide reports that situation as a failed vacuity twin; the part turns it into a
+    violation whose replay is the honest run (see check / replay below)."""
+    def sp(e, I, O):
+        n0 = len(getattr(e, "_cut_log", []))
+        pre_lines = len(e.lines)
+        f = spec(e, I, O)
+        if len(getattr(e, "_cut_log", [])) == n0:      # the specification did not cut itself
+            f = cut(e, [("spec", f)])
+        ob = getattr(e, "fecc_ob", None)
+        if ob is not None and hasattr(e, "s") and getattr(e, "fecc_chain_ok", False) and not getattr(ob, "_no_lambda", None):
+            try:
+                from vf import solvers
+                honest = e.s.honest_assign()
+                hon = e.exact_atoms({n_: honest.get(c_, 0) for c_, n_ in e.vars.items()})
+                pins = [f"(assert (= {n_} {v_}))" for n_, v_ in hon.items()]
+                r1 = solvers.solve(e.text(pins + [f"(assert {f})"]), timeout=30)
+                if r1.status == "unsat":
+                    r2 = solvers.solve(e.text(pins), timeout=30)
+                    ob.queries += 2
+                    if r2.status == "sat":
+                        iv = {c_: hex(honest.get(e.s.cls(c_), e.s.const.get(e.s.cls(c_), 0))) for c_ in e.s.ins + e.s.outs}
+                        ob._honest_violates = iv
+            except Exception:
+                pass
+        return f
+    return sp
+
+
 def entry(curve, op, spec, ins, alt=(), k=11, what=None):
+    spec = with_cut(spec)
     return dict(op=op, spec=spec, ins=list(ins), params={"curve": curve}, alt=[list(a) for a in alt], k=k, ff=True,
                 what=what, functions=[f"ecc::foreign::ForeignEccChip::{op}", "ecc::foreign::gates"])
 
@@ -251,6 +322,8 @@ def family(tier, seed, only_curves=None):
             entry(c, "assert_zero", S_assert_zero, [0]),
             entry(c, "assert_non_zero", S_assert_non_zero, [a], alt=[[1]]),
             entry(c, "pi", S_pi, [a], alt=[[0], [1]]),
+            entry(c, "incomplete_add", S_incomplete_add, [a, b], alt=[[1, 2], [b, a]]),
+            entry(c, "assert_different_x", S_assert_different_x, [a, b], alt=[[1, 2]]),
         ]
     return E
 
@@ -267,11 +340,52 @@ def check(run):
     ]
     run.outside += [
         "fecc: that the identities  s*qy - py = L(qx - px),  x1 + x2 + x3 = L^2,  3 px^2 = 2 py L,  y^2 = x^3 + b  ARE the affine chord/tangent law of the curve group (and that the chip's case split on identity flags / x1 = x2 covers the group law, incl. the absence of points of order 2 and 3) is textbook mathematics outside the check",
-        "fecc: scalar multiplication (mul_by_constant, msm, windowed_msm, GLV split, k_out_of_n dynamic lookups), hash-to-curve, subgroup checks (assert_in_bls12_381_subgroup) and the private helpers only they reach (incomplete_add with a fixed condition, incomplete_assert_different_x) are not decided",
+        "fecc: scalar multiplication (mul_by_constant, mul_by_u128, msm, windowed_msm, GLV split, k_out_of_n / multi_select dynamic lookups), hash-to-curve and subgroup checks (assert_in_bls12_381_subgroup) are not decided; of the private helpers they are built from, incomplete_add and incomplete_assert_different_x are decided in isolation (hook H11)",
         "fecc: completeness beyond the concrete honest runs",
     ]
     run.bounds.append(f"fecc tier={t}: {len(ents)} (curve, operation) shapes of the foreign ECC chip; curves {sorted(set(e_['params']['curve'] for e_ in ents))} emulated over the BLS12-381 scalar field; k=11")
     run.translator_validation.append("fecc: every extracted system is validated on the honest run (exact arithmetic vs MockProver::verify); the role search of ffecc is validated by the vacuity twin (honest assignment satisfies encoding + hypotheses + specification)")
     for en in ents:
         ffecc.ALT[(en["op"], en["params"]["curve"])] = en["alt"]
+    n_before = len(run.obs)
     cengine.run_family(run, "fecc", ents, timeout=90 if t == "quick" else 600, only=getattr(run, "only", None), workers=6)
+    # the honest run (accepted by the real MockProver) violates the specification: a violation whose replay is
+    # the honest run itself. decide() reports it as a failed vacuity twin.
+    by_id = {f"fecc/{en['op']}[{cengine.pstr(en['params'])}]": en for en in ents}
+    for ob in run.obs[n_before:]:
+        fg = getattr(ob, "_forged", None)
+        if fg and ob.status == core.INCONCLUSIVE:
+            path = run.write_replay(ob, dict(kind="forged-assignment", cx=fg["cx"], overrides=fg["overrides"], instance=fg["instance"],
+                                             note=f"real MockProver::verify() accepts this assignment (honest run with the listed cells overridden) although the instance violates the part '{fg['part']}' of the operation's specification"))
+            ob.set(core.VIOLATION, f"{ob.id}: the real MockProver accepts a forged assignment whose instance {fg['instance']} violates the specification (part '{fg['part']}')", replay=path)
+            continue
+        if getattr(ob, "_no_lambda", None) and ob.status in (core.INCONCLUSIVE, core.VIOLATION) and "honest" not in (ob.key or ""):
+            ob.set(core.INCONCLUSIVE, ob._no_lambda + "; " + ob.detail[:300])
+            continue
+        iv = getattr(ob, "_honest_violates", None)
+        if iv and ob.status == core.INCONCLUSIVE and "vacuity twin" in ob.detail and ob.id in by_id:
+            en = by_id[ob.id]
+            ob.key = ob.key + ":honest-output-violates-spec"
+            path = run.write_replay(ob, dict(kind="honest-output-violates-spec", engine_part="F", instance=iv,
+                                             cx=cengine.cx_args("fecc", en["op"], en["params"], en["ins"], en["k"]),
+                                             note="the real chip's own witness generation produces this (inputs, outputs) instance, the real MockProver accepts it, and it violates the operation's specification (solver: honest values + encoding + specification is unsat, honest values + encoding is sat)"))
+            ob.set(core.VIOLATION, f"{en['op']}: the honest run of the real chip is accepted by the real MockProver with instance {iv}, which violates the specification", replay=path)
+
+
+def replay(payload):
+    """replay of `honest-output-violates-spec`: re-run the real synthesis + MockProver on the recorded inputs;
+    reproduces iff the honest witness is accepted and the instance is the recorded one"""
+    if payload.get("kind") != "honest-output-violates-spec":
+        return None
+    import json, subprocess
+    from vf import cengine
+    cengine.build()
+    p = subprocess.run([cengine.CX] + payload["cx"], capture_output=True, text=True)
+    if p.returncode != 0:
+        print("extractor failed:", p.stderr[-300:])
+        return 0
+    d = json.loads(p.stdout)
+    inst = {f"i1_{x['row']}": int(x["value"], 16) for x in d["io"]}
+    same = all(inst.get(c_) == int(v_, 16) for c_, v_ in payload["instance"].items())
+    print("honest_verify:", d["honest_verify"], "instance as recorded:", same)
+    return 1 if d["honest_verify"] and same else 0
